@@ -27,7 +27,8 @@ from pathlib import Path
 
 REPO = Path(os.environ.get("VERIF_REPO", "/repo"))
 FLAG = {"GOOD": ".good", "UNKNOWN": ".unknown", "SUSPECT": ".suspect", "FAIL": ".fail", "MISSING": ".missing"}
-FUNCS = {"gross_range_test": "ioos_qc/qartod.py", "spike_test": "ioos_qc/qartod.py", "rate_of_change_test": "ioos_qc/qartod.py"}
+FUNCS = {"gross_range_test": "ioos_qc/qartod.py", "spike_test": "ioos_qc/qartod.py", "rate_of_change_test": "ioos_qc/qartod.py",
+         "location_test": "ioos_qc/qartod.py"}
 
 
 class Untranslatable(Exception):
@@ -58,8 +59,12 @@ class Tr:
 
     # ---- types of the parameters --------------------------------------------------------------------------------------
     def param_type(self, p):
-        if p == "inp":
+        if p in ("inp", "lon", "lat"):
             t = "List V"
+        elif p == "bbox":
+            return "SeqArg"
+        elif p == "range_max":
+            t = "Rat"
         elif p == "tinp":
             t = "List Int"
         elif p.endswith("_span"):
@@ -76,8 +81,11 @@ class Tr:
     def scalar(self, e):
         if isinstance(e, ast.Attribute) and isinstance(e.value, ast.Name) and self.kind.get(e.value.id) == "span" and e.attr in ("minv", "maxv"):
             return f"{e.value.id}.{1 if e.attr == 'minv' else 2}"
-        if isinstance(e, ast.Name) and e.id in self.params and e.id.endswith("threshold"):
+        if isinstance(e, ast.Name) and e.id in self.params and (e.id.endswith("threshold") or e.id == "range_max"):
             return e.id
+        if isinstance(e, ast.Attribute) and isinstance(e.value, ast.Name) and self.kind.get(e.value.id) == "box" \
+                and e.attr in ("minx", "miny", "maxx", "maxy"):
+            return f"{e.value.id}.{e.attr}"
         if isinstance(e, ast.Constant) and isinstance(e.value, int) and not isinstance(e.value, bool):
             return str(e.value)
         raise Untranslatable(f"scalar {src(e)}")
@@ -145,6 +153,9 @@ class Tr:
             return FLAG[e.attr]
         raise Untranslatable(f"flag {src(e)}")
 
+    def is_mask(self, e):
+        return isinstance(e, ast.Attribute) and e.attr == "mask" and isinstance(e.value, ast.Name) and self.kind.get(e.value.id) == "marr"
+
     # ---- statements ---------------------------------------------------------------------------------------------------
     def emit(self, ind, text):
         self.lines.append("  " * ind + text)
@@ -208,8 +219,20 @@ class Tr:
             name = tgt.id
             if name == "original_shape" and src(val).endswith(".shape"):
                 return
-            if name == "msg":
+            if name == "msg" or is_call(val, "namedtuple"):
                 return
+            if name == "bbox" and is_call(val, "bboxnt") and len(val.args) == 1 and isinstance(val.args[0], ast.Starred) \
+                    and src(val.args[0].value) == "bbox":
+                self.kind["bbox"] = "box"
+                return self.emit(ind, "let bbox ← boxOf bbox")
+            if isinstance(val, ast.BinOp) and isinstance(val.op, ast.BitAnd) and self.is_mask(val.left) and self.is_mask(val.right):
+                return self.bind(ind, name, f"band (maskOf {val.left.value.id}) (maskOf {val.right.value.id})", "bools")
+            if isinstance(val, ast.Compare) and len(val.ops) == 1 and isinstance(val.ops[0], ast.NotEq) and self.is_mask(val.left) \
+                    and self.is_mask(val.comparators[0]):
+                return self.bind(ind, name, f"bxor (maskOf {val.left.value.id}) (maskOf {val.comparators[0].value.id})", "bools")
+            if is_call(val, "great_circle_distance") and [src(a) for a in val.args] == ["lat", "lon"] and not val.keywords:
+                self.uses_hops = True
+                return self.bind(ind, name, "greatCircle hops lon.length", "marr")
             if src(val) == f"{name}.flatten()":
                 return
             if name == "tinp" and src(val) == "mapdates(tinp).flatten()":
@@ -232,6 +255,8 @@ class Tr:
                 f = self.flag(val)
                 if isinstance(sl, ast.Attribute) and sl.attr == "mask" and isinstance(sl.value, ast.Name) and self.kind.get(sl.value.id) == "marr":
                     return self.emit(ind, f"{a} := setWhere {a} (maskOf {sl.value.id}) {f}")
+                if isinstance(sl, ast.Name) and self.kind.get(sl.id) == "bools":
+                    return self.emit(ind, f"{a} := setWhere {a} {sl.id} {f}")
                 if isinstance(sl, ast.Slice):
                     lo = None if sl.lower is None else src(sl.lower)
                     hi = None if sl.upper is None else src(sl.upper)
@@ -264,6 +289,25 @@ class Tr:
                 and t.left.id in self.optional and not st.orelse:
             self.emit(ind, f"if let some {t.left.id} := {t.left.id} then")
             return self.block(st.body, ind + 1)
+        # if bbox is not None:  (the default is a tuple; an explicit None is outside the model's domain) -> inlined
+        if isinstance(t, ast.Compare) and isinstance(t.ops[0], ast.IsNot) and src(t.left) == "bbox" and src(t.comparators[0]) == "None" \
+                and "bbox" not in self.optional and not st.orelse:
+            return self.block(st.body, ind)
+        # if a.shape != b.shape: raise
+        if isinstance(t, ast.Compare) and isinstance(t.ops[0], ast.NotEq) and src(t.left).endswith(".shape") and src(t.comparators[0]).endswith(".shape") \
+                and not st.orelse:
+            self.emit(ind, f"if {src(t.left)[:-6]}.length != {src(t.comparators[0])[:-6]}.length then")
+            return self.block(st.body, ind + 1)
+        # if x is not None and a.size > 1:
+        if isinstance(t, ast.BoolOp) and isinstance(t.op, ast.And) and len(t.values) == 2 and not st.orelse:
+            c0, c1 = t.values
+            if (isinstance(c0, ast.Compare) and isinstance(c0.ops[0], ast.IsNot) and isinstance(c0.left, ast.Name) and c0.left.id in self.optional
+                    and src(c0.comparators[0]) == "None" and isinstance(c1, ast.Compare) and isinstance(c1.ops[0], ast.Gt)
+                    and src(c1.left).endswith(".size") and isinstance(c1.comparators[0], ast.Constant)):
+                self.emit(ind, f"if let some {c0.left.id} := {c0.left.id} then")
+                self.emit(ind + 1, f"if {src(c1.left)[:-5]}.length > {c1.comparators[0].value} then")
+                return self.block(st.body, ind + 2)
+            raise Untranslatable(f"if {src(t)}")
         # if a.size != b.size: raise
         if isinstance(t, ast.Compare) and isinstance(t.ops[0], ast.NotEq) and src(t.left).endswith(".size") and src(t.comparators[0]).endswith(".size") \
                 and not st.orelse:
@@ -312,9 +356,10 @@ class Tr:
         raise Untranslatable(f"if {src(t)}")
 
     def run(self):
-        sig = " ".join(f"({p} : {self.param_type(p)})" for p in self.params)
-        head = f"def {self.fn.name} {sig} : Res := do"
+        self.uses_hops = False
         self.block(self.fn.body, 1)
+        sig = " ".join(f"({p} : {self.param_type(p)})" for p in self.params) + (" (hops : List V)" if self.uses_hops else "")
+        head = f"def {self.fn.name} {sig} : Res := do"
         return head + "\n" + "\n".join(self.lines) + "\n"
 
 
